@@ -84,6 +84,12 @@ def run(tier):
                         b = b[:len(b) // 2] + bytes([(b[len(b) // 2] ^ 0x20) if b else 0x41]) + b[len(b) // 2 + 1:]
                     if s == "crlf":
                         b = b.replace(b"\n", b"\r\n")
+                    if s == "truncated":
+                        b = b[:max(len(b) - 7, 0)]
+                    if s == "extended":
+                        b = b + b"// stale\n"
+                    if s == "empty":
+                        b = b""
                     open(dst, "wb").write(b)
                 if extra_file:
                     open(os.path.join(d, "unrelated.txt"), "w").write("keep me\n")
